@@ -1,5 +1,5 @@
 #!/usr/bin/env python3
-"""tools/triage_inv.py <C09|C10|C11|C12> <replay.json> [--mech M] [--out file]
+"""tools/triage_inv.py <C09|C10|C11|C12> <replay.json | log.json> [--mech M] [--msg REGEX] [--out file]
 Triage of the snapshot-invariant checks (adapted from tools/triage.py, which is for C01/C03).
 Re-runs the shard of a replay file with the full history log, cuts the log at the failing generated
 bundle and delta-minimises it (whole entries, then single actions of multi-action entries) under the
@@ -52,12 +52,16 @@ def replay(pid, log, verbose=False):
 def main():
   pid, path = sys.argv[1], sys.argv[2]
   want = None
+  pat = None
   out = '/tmp/triage-inv-min.json'
   for i, a in enumerate(sys.argv):
     if a == '--mech':
       want = sys.argv[i + 1]
     if a == '--out':
       out = sys.argv[i + 1]
+    if a == '--msg':
+      import re
+      pat = re.compile(sys.argv[i + 1])     # the reported message must also match (keeps the minimisation on one mechanism)
   rp = json.load(open(path))
   if isinstance(rp, list):
     log = rp
@@ -77,12 +81,13 @@ def main():
     # the violation is raised inside after_bundle of the failing 'gen' entry: cut after the last gen entry
     last_gen = max(i for i, e in enumerate(log) if e[0] == 'gen')
     log = log[:last_gen + 1]
+    json.dump(log, open(out + '.full', 'w'))
   def fails(l):
     try:
       msgs = replay(pid, l)[0]
     except Exception:      # pylint: disable=broad-except
       return False
-    return any(m == mech for m, _ in msgs)
+    return any(m == mech and (pat is None or pat.search(t)) for m, t in msgs)
   cur = log
   if not fails(cur):
     json.dump(log, open(out, 'w')); print('cut log does not reproduce under replay; full log in', out); return
